@@ -418,6 +418,8 @@ func (r *Recorder) ReleaseStalls() {
 type Binding struct {
 	Neg []HName `json:"neg"`
 	Fin []HName `json:"fin"`
+	// Form: how the binding reaches the machine (forms.go); "" = "map"
+	Form string `json:"form,omitempty"`
 }
 
 // Bind binds a map-based handler set (1-based binding number b) to the machine.
